@@ -240,3 +240,12 @@ Proof.
   - reflexivity.
   - cbn [length stored_blocks]. destruct (N.leb_spec (Nlen (x :: r)) 65535); [|lia]. rewrite <- app_assoc. reflexivity.
 Qed.
+
+(* the test [stored] applies to LEN and NLEN is the one's complement test of RFC 1951 3.2.4 *)
+Lemma stored_check_complement len nlen : len < 65536 -> nlen < 65536 ->
+  (len + nlen =? 65535) = (nlen =? N.lnot len 16).
+Proof.
+  intros H1 H2. rewrite N.lnot_sub_low.
+  - change (N.ones 16) with 65535. destruct (N.eqb_spec (len + nlen) 65535), (N.eqb_spec nlen (65535 - len)); try reflexivity; exfalso; lia.
+  - destruct (N.eq_dec len 0) as [->|Hn]; [reflexivity|]. apply N.log2_lt_pow2; [lia|exact H1].
+Qed.
